@@ -107,7 +107,7 @@ Fixpoint gb_many (default : option json) (j : job) (ks : list str) : option (lis
 
 Definition gb_expected_label (single : bool) (keys : list str) (default : option json) (j : job) : option json :=
   if single then gb_one default j (hd [] keys)
-  else match gb_many default j (gb_order_keys keys) with Some vs => Some (JArr vs) | None => None end.
+  else match gb_many default j keys with Some vs => Some (JArr vs) | None => None end.
 
 (* a label component taken from a job document that is a list or mapping is a synced collection
    object, which Python cannot order *)
